@@ -62,6 +62,7 @@ def project(mgx: Exec, npx: Exec, order: list[int], want_np=True) -> dict:
             a = npx.H[h]
             rec["np_v"] = enc_arr(a)
             rec["np_sh"] = list(a.shape)
+            rec["np_dt"] = str(a.dtype)
         per.append(rec)
     live = [h for h in order if h in H]
     share, np_share, gshare = [], [], []
